@@ -546,8 +546,9 @@ def check_helpers(p: Program, rep: Report) -> None:
     # Headers.__init__ lower-cases names (list_headers reads this mapping)
     hd = p.cls("baize.datastructures:Headers")
     init = hd.methods["__init__"]
+    from ..common import with_helpers as _wh5
     lowered = any(isinstance(n, ast.Assign) and isinstance(n.value, ast.Call) and isinstance(n.value.func, ast.Attribute) and n.value.func.attr == "lower"
-                  and isinstance(n.targets[0], ast.Name) and isinstance(n.value.func.value, ast.Name) and n.targets[0].id == n.value.func.value.id for n in ast.walk(init.node))
+                  and isinstance(n.targets[0], ast.Name) and isinstance(n.value.func.value, ast.Name) and n.targets[0].id == n.value.func.value.id for f_ in _wh5(p, init) for n in ast.walk(f_.node))
     if lowered:
         rep.ok("R5.2", "Headers.__init__ lower-cases every name before storing")
     else:
